@@ -49,6 +49,9 @@ type recFs struct {
 
 func (f *recFs) outside(name string) bool {
 	name = path.Clean(name)
+	if f.root == "/" {
+		return false
+	}
 	return name != f.root && !strings.HasPrefix(name, f.root+"/")
 }
 
